@@ -56,20 +56,26 @@ func VH_C11_ListingAgreesWithInfo_sym() {
 	info[71] = 7
 	info = append(info, "pic.jpg"...)
 	info = append(info, 0, 0)
-	vNSNames = []string{"/r/d/pic.jpg", "/r/d/.info_pic.jpg", "/r/d/up.bin.incomplete", "/r/d/sub", "/r/d/.secret"}
-	vNSData = [][]byte{nil, info, []byte{1, 2, 3}, nil, []byte{9}}
-	vNSSizes = []int{size, len(info), 3, 0, 1}
+	vNSNames = []string{"/r/d/pic.jpg", "/r/d/.info_pic.jpg", "/r/d/up.bin.incomplete", "/r/d/sub", "/r/d/.secret", "/r/d/z\xc3\xa9"}
+	vNSData = [][]byte{nil, info, []byte{1, 2, 3}, nil, []byte{9}, []byte{5}}
+	vNSSizes = []int{size, len(info), 3, 0, 1, 1}
 	vDirNames = []string{"/r/d", "/r/d/sub"}
 	vDirLists = [][]os.DirEntry{
-		{vDirEntry{&vInfo{name: ".info_pic.jpg", size: int64(len(info))}}, vDirEntry{&vInfo{name: ".secret", size: 1}}, vDirEntry{&vInfo{name: "pic.jpg", size: int64(size)}}, vDirEntry{&vInfo{name: "sub", dir: true}}, vDirEntry{&vInfo{name: "up.bin.incomplete", size: 3}}},
+		{vDirEntry{&vInfo{name: ".info_pic.jpg", size: int64(len(info))}}, vDirEntry{&vInfo{name: ".secret", size: 1}}, vDirEntry{&vInfo{name: "pic.jpg", size: int64(size)}}, vDirEntry{&vInfo{name: "sub", dir: true}}, vDirEntry{&vInfo{name: "up.bin.incomplete", size: 3}}, vDirEntry{&vInfo{name: "z\xc3\xa9", size: 1}}},
 		{vDirEntry{&vInfo{name: ".hidden", size: 1}}, vDirEntry{&vInfo{name: "a", size: 1}}, vDirEntry{&vInfo{name: "b", size: 1}}},
 	}
 	fields, err := GetFileNameList("/r/d", []string{`^\.`})
 	vAssert("list_ok", err == nil)
-	vAssert("exactly_the_visible_entries", len(fields) == 3)
-	if len(fields) != 3 {
+	vAssert("exactly_the_visible_entries", len(fields) == 4)
+	if len(fields) != 4 {
 		return
 	}
+	// every record's name-size prefix equals the name bytes that follow (also for a name that is re-encoded)
+	for _, fl := range fields {
+		b := fl.Data
+		vAssert("list_record_name_prefix_matches", len(b) >= 20 && int(b[18])<<8|int(b[19]) == len(b)-20)
+	}
+	vAssert("non_ascii_name_listed_in_wire_encoding", string(fields[3].Data[20:]) == "z\x8e")
 	entry := func(i int) (ty string, sz int, name string) {
 		b := fields[i].Data
 		return string(b[0:4]), int(b[8])<<24 | int(b[9])<<16 | int(b[10])<<8 | int(b[11]), string(b[20:])
